@@ -28,7 +28,18 @@ META["C08"] = {
     "technique": "explicit-state BFS over operation sequences on the implementation with reference-model comparison on every transition",
 }
 
-ENGINE_OF = {"C09": "sched", "C08": "seq"}
+META["C02"] = {
+    "level": "model_checking",
+    "rule": "sequential: per configuration (statistics geometry x rule set: thresholds 0/0.5/1/2/2.5/3 x statistic-interval kinds default / reused views / whole array / standalone windows shorter, unaligned and longer than the array; two rules in both orders; associated-resource rules) a BFS over all histories of requests (batch 1/2/4 on the guarded and the referenced resource) and clock advances (1, bucket+-1, window+-1, array, array+1, >3 arrays) to the depth bound through the real api.Entry; every decision, TriggeredRule and TriggeredValue is compared with the admitted-token reference; concurrent: ALL interleavings of 2-3 callers x 1-2 requests at admission-path granularity (scheduling points only at request start and between the rule-check and statistic phases); distinct outcome = configuration + decision/value vector",
+    "assumptions": [A_CLOCK, A_OVERLAY, "the bucket length of a rule's window follows the documented policy of generateStatFor (mirrored in the reference as a function of the interval and the global geometry)", "concurrent clause: clock frozen, scaled geometry (4 x 10 ms array)"],
+    "budget_quick": 90,
+    "budget_thorough": 1200,
+    "text": "Explicit-state exploration of arrival histories through the real entry path against an exact reference (both directions: no over-admission, no spurious rejection, reported rule and value), plus exhaustive admission-path interleavings of k concurrent callers with the (k-1)*maxBatch excess bound.",
+    "level_note": "Bounded depth (6/8 on the scaled geometry, 4/6 on the default 20 x 500 ms geometry) and finite grids; admission-path (not atomic-access) granularity for the concurrent clause, as the property states.",
+    "technique": "explicit-state BFS over operation sequences + exhaustive interleaving enumeration under a controlled scheduler, both on the implementation",
+}
+
+ENGINE_OF = {"C09": "sched", "C08": "seq", "C02": "seq+sched"}
 
 # properties not claimed, with the reason (kept current)
 NOT_APPLICABLE = {}
